@@ -201,6 +201,12 @@ def w_plans(idx):
             plant(sites[(site - 1) % len(sites)], kind, rnd, t)
         evs.append(record_prune(root, p["strict"], {"plan": p}))
         evs += in_place_variants(lambda: rebuild_plan(p, i, t), p["strict"], {"plan": p}, i)
+        has_leaf = any(k == "unknown-leaf" for _s, k in p["plant"])
+        # (plans that plant a child the parent's rule lists although it is no element - the C10 findings - run here in ONE
+        # canonical form only, non-strict and alone: what prune does with them when the parent pointers are unset is recorded
+        # in known_findings.json)
+        if (not has_leaf and i % 2 == 0) or (has_leaf and not p["strict"] and len(p["plant"]) == 1):
+            evs += setter_variant(lambda: rebuild_plan(p, i, t), p["strict"], {"plan": p}, i, only_none=has_leaf)
     return evs
 
 
@@ -233,6 +239,17 @@ def in_place_variants(rebuild, strict, desc, i):
             root.remove_child(c)
             evs.append(record_prune(c, strict, dict(desc, variant="detached " + c.name + " (parent pointer kept by remove_child)")))
     return evs
+
+
+def setter_variant(rebuild, strict, desc, i, only_none=False):
+    """The same tree with its parent pointers as the `children` setter / list surgery leaves them (None, or naming the node
+    the child was moved away from): a tree is its child lists, and prune is told which node to start at."""
+    root = rebuild()
+    holder = Node("zzFormerParent")
+    for k, x in enumerate(list(walk(root))):
+        if x is not root:
+            x.parent = None if (only_none or (k + i) % 2) else holder
+    return [record_prune(root, strict, dict(desc, variant="parent pointers unset / stale (tree assembled through the children property)"))]
 
 
 def ancestors(n):
@@ -343,7 +360,13 @@ def run(rep, tier, seed):
         e = evs[rj["event"] - 1]
         for cl in rj["clauses"]:
             mode = "strict" if e["strict"] else "non-strict"
-            rep.violation(f"{PID}:{mode}:{cl}" + (f":{e['raised']}" if cl == "raised" else ""),
+            d_ = e.get("desc") or {}
+            special = ""
+            if "parent pointers unset" in str(d_.get("variant", "")) and any(k == "unknown-leaf" for _s, k in (d_.get("plan") or {}).get("plant", [])):
+                # the one input family behind the recorded finding (a child the parent's rule LISTS although it is no element - the
+                # C10 findings - in a tree whose parent pointers are unset): its own key, so that nothing else hides behind it
+                special = ":rule-listed-non-element:parent-pointers-unset:" + str((d_.get("plan") or {}).get("skeleton"))
+            rep.violation(f"{PID}:{mode}:{cl}" + special + (f":{e['raised']}" if cl == "raised" else ""),
                           f"prune({mode}) clause {cl}; case {e['desc']}; returned {e['ret'][:6]}",
                           {"kind": "prune", "desc": e["desc"], "strict": e["strict"], "clause": cl, "pre": e["pre"], "post": e["post"], "ret": e["ret"]})
     rep.sample({"plan": plans[len(plans) // 2]})
